@@ -330,7 +330,10 @@ class QRCode(Generic[GenericImage]):
 
         for r in range(-self.border, modcount + self.border, 2):
             if tty:
-                if not invert or r < modcount + self.border - 1:
+                # The last text line only holds the quiet zone and the spare half
+                # row below it - unless there is no border: then its upper half is
+                # the last row of the symbol and needs the black background too.
+                if not invert or not self.border or r < modcount + self.border - 1:
                     out.write("\x1b[48;5;232m")  # Background black
                 out.write("\x1b[38;5;255m")  # Foreground white
             for c in range(-self.border, modcount + self.border):
